@@ -8,10 +8,19 @@ STANDALONE = os.path.join(common.HARNESS, "standalone")
 
 def build_sweeps(work):
     e = common.env_clean()
-    e["BINDGEN_SRC"] = os.path.join(common.REPO, "bindgen")
+    src = os.path.join(common.REPO, "bindgen", "codegen", "bitfield_unit.rs")
+    # big-endian branches executed on this little-endian host: the same file with the
+    # `cfg!(target_endian = "big")` tests replaced by `true` (pure arithmetic, no host dependence)
+    text = open(src).read()
+    if 'cfg!(target_endian = "big")' not in text:
+        return None, "bitfield_unit.rs no longer tests cfg!(target_endian = \"big\")"
+    be_src = os.path.join(work, "bitfield_unit_be.rs")
+    open(be_src, "w").write(text.replace('cfg!(target_endian = "big")', "true"))
     bins = {}
     for mode, flags in (("dbg", ["-C", "opt-level=1", "-C", "overflow-checks=on", "-C", "debug-assertions=on"]),
-                        ("rel", ["-C", "opt-level=2", "-C", "overflow-checks=off", "-C", "debug-assertions=off"])):
+                        ("rel", ["-C", "opt-level=2", "-C", "overflow-checks=off", "-C", "debug-assertions=off"]),
+                        ("be", ["-C", "opt-level=2", "-C", "overflow-checks=off", "-C", "debug-assertions=off"])):
+        e["BINDGEN_BF_FILE"] = be_src if mode == "be" else src
         out = os.path.join(work, "bf_" + mode)
         rc, log = sh(["rustc", "--edition", "2021", "--cap-lints", "allow"] + flags +
                      [os.path.join(STANDALONE, "bf_sweep.rs"), "-o", out], env=e, timeout=900)
@@ -85,7 +94,7 @@ def _run(res, work):
         return
     tot = dict(ops=0, distinct=0, corr=0, known=0)
     samples = []
-    for mode in ("dbg", "rel"):
+    for mode in ("dbg", "rel", "be"):
         r = run_sweep(res, work, bins, mode)
         tot["ops"] += r["ops"]; tot["distinct"] += r["distinct"]; tot["corr"] += r["corr"]; tot["known"] += r["oracle_known"]
         samples += r["samples"]
@@ -150,7 +159,7 @@ def _run(res, work):
         })
         res.coverage["samples"] = samples + rep["samples"][:2]
     res.assumptions += [
-        "host is little-endian with 64-bit usize; the big-endian branches and the 32-bit usize fast path are modelled and proved (wb = 32) but not executed",
+        "host is little-endian with 64-bit usize; the big-endian branches are executed through a copy of bitfield_unit.rs with cfg!(target_endian = \"big\") replaced by true; the 32-bit usize fast path is modelled and proved (wb = 32) but not executed",
         "raw_* entry points are exercised on [u8; N] storage only",
     ]
 
